@@ -608,14 +608,19 @@ def run(chk, replay=None):
                    f"load {SOURCE_TYPE.get(r[0], r[0])} {r[3]} {ctx_of(r)}") for r in reqs]
 
         def cpp(idx):
+            t0 = time.time()
             a, deaths = C.run_lines(exe, lines[idx::shards] + ["stats"], timeout=3000)
+            phase["cpu:harness-shards"] = round(phase.get("cpu:harness-shards", 0) + time.time() - t0, 1)
             n = len(lines[idx::shards])
             st = a[n] if len(a) > n and a[n].startswith("stats ") else None
             # a death reported on the trailing `stats` line (e.g. a leak report at exit) belongs to the run
             return a[:n], [(min(j, n - 1), rcode, se) for j, rcode, se in deaths], st
 
         def model(idx):
-            return C.run_driver("c12_driver", mlines[idx::shards]) if drv_ok else None
+            t0 = time.time()
+            r = C.run_driver("c12_driver", mlines[idx::shards]) if drv_ok else None
+            phase["cpu:driver-shards"] = round(phase.get("cpu:driver-shards", 0) + time.time() - t0, 1)
+            return r
 
         with cf.ThreadPoolExecutor(2 * shards) as ex:
             fc = [ex.submit(cpp, i) for i in range(shards)]
